@@ -321,8 +321,11 @@ class Run:
     def __init__(self, model: Model, cls_name: str, method: str,
                  sizes: Dict[str, int], nthreads: int = 0,
                  pass_v: bool = True, extra_args=(),
-                 schedule: str = "eager", nqp: Dict[str, int] = None):
+                 schedule: str = "eager", nqp: Dict[str, int] = None,
+                 fail_tags: str = None):
         self.model = model
+        self.fail_tags = fail_tags   # the integrand raises for this pair
+        self.raised = None
         self.schedule = schedule
         self.nqp = nqp or {}     # concrete numbers of quadrature points
         self.bufs: List[Buf] = []
@@ -438,6 +441,8 @@ class Run:
                     run.events.append(("plain-dict-params",
                                        run.current_thread, n))
             run.form_calls.append((list(a), n))
+            if run.fail_tags is not None and ";".join(tags) == run.fail_tags:
+                raise Raised("IntegrandError")
             return Poly.sym("form(" + ";".join(tags) + ")")
         self.obj.attrs["form"] = PyFunc(form)
 
@@ -456,7 +461,7 @@ class Run:
             self.result = self.interp.call(self.fn, args, {},
                                            self_obj=self.obj)
         except Raised as e:
-            if self.nqp:
+            if self.nqp or self.fail_tags is not None:
                 self.raised = e.what
                 self.result = None
                 return
